@@ -231,6 +231,12 @@ def run(ctx):
             ctx.ob("C14.F5.raw-emission-is-reviewed", tag + f.path, f.path in RAW_ADD_OK,
                    "instruction emitted without a line record: errors raised by it carry no location", f.where(bb))
         ctx.count("configs")
+    # F2b: the code that formats errors slices source text only at offsets that come from the text (byte offsets of
+    # spans, search results) - never at a character column or a literal
+    from .c01_slices import check_str_slices
+    nfmt = check_str_slices(ctx, ctx.program("MAX"), rule="C14.F2.error-formatting-slices-at-text-offsets",
+                            files=("minijinja/src/debug.rs", "minijinja/src/error.rs"), floor=0)
+    ctx.count("C14.F2 str slicing sites in the error formatting code", nfmt)
     from .c14_lines import check_lines
     from .c14_spans import check_span_expansion
     for cname in ctx.configs():
